@@ -283,4 +283,55 @@ theorem select_method_mem (D : Decls) (t : Nat) (k : String) (h : MHit) (hs : se
     subst this
     exact hm
 
+
+/-! ### interface types: the interpreter's and the specification's list have the same names -/
+
+theorem mem_names_foldl_merge (g : Nat → List (String × Nat)) (x : String) :
+    ∀ (es : List Nat) (acc : List (String × Nat)),
+    x ∈ names (es.foldl (fun acc e => mergeMap acc (g e)) acc) ↔ x ∈ names acc ∨ ∃ e ∈ es, x ∈ names (g e) := by
+  intro es
+  induction es with
+  | nil => intro acc; simp
+  | cons e es ih =>
+    intro acc
+    simp only [List.foldl_cons]
+    rw [ih, mem_names_mergeMap]
+    constructor
+    · rintro ((h | h) | ⟨e', he', hx⟩)
+      · exact Or.inl h
+      · exact Or.inr ⟨e, by simp, h⟩
+      · exact Or.inr ⟨e', by simp [he'], hx⟩
+    · rintro (h | ⟨e', he', hx⟩)
+      · exact Or.inl (Or.inl h)
+      · simp only [List.mem_cons] at he'
+        rcases he' with rfl | he'
+        · exact Or.inl (Or.inr hx)
+        · exact Or.inr ⟨e', he', hx⟩
+
+theorem iface_names_eq (D : Decls) (x : String) : ∀ (fuel i : Nat),
+    x ∈ names (Method.ifaceMethodsF D fuel i) ↔ x ∈ (Spec.Selector.ifaceMethodsF D fuel i).map (·.name) := by
+  intro fuel
+  induction fuel with
+  | zero => intro i; simp [Method.ifaceMethodsF, Spec.Selector.ifaceMethodsF, names]
+  | succ n ih =>
+    intro i
+    unfold Method.ifaceMethodsF Spec.Selector.ifaceMethodsF
+    simp only
+    rw [mem_names_foldl_merge, mem_names_mergeMap]
+    simp only [List.map_append, List.mem_append, List.map_flatMap, List.mem_flatMap]
+    have hown : x ∈ names ((ifaceDecl D i).1.map (fun m => (m.name, m.sig))) ↔ x ∈ (ifaceDecl D i).1.map (·.name) := by
+      unfold names
+      simp only [List.map_map]
+      have : (List.map ((fun x => x.1) ∘ fun m => (m.name, m.sig)) (ifaceDecl D i).1) = (ifaceDecl D i).1.map (·.name) := by
+        apply List.map_congr_left; intro a _; rfl
+      rw [this]
+    constructor
+    · rintro ((h | h) | ⟨e, he, hx⟩)
+      · simp [names] at h
+      · exact Or.inl (hown.mp h)
+      · exact Or.inr ⟨e, he, (ih e).mp hx⟩
+    · rintro (h | ⟨e, he, hx⟩)
+      · exact Or.inl (Or.inr (hown.mpr h))
+      · exact Or.inr ⟨e, he, (ih e).mpr hx⟩
+
 end YaegiVerif.Proofs.C05
